@@ -15,7 +15,8 @@ RULE = ("Hypothesis draws dense arrays (d 2..5, mode sizes 1..6) of three kinds 
         "plus noise, full-rank gauss - at magnitudes 10^[-6,6], accuracies e = ||A|| * 10^[-12,0.5] or placed at a rank threshold, caps; "
         "2^q x 2^q matrices (q 1..5) for the matrix variant; m x n matrices with prescribed spectra for matrix_skeleton / matrix_svd with "
         "rel in {F,T}, give_to in {m,l,r}, hermitian on symmetric input. Oracle = LAPACK SVD of the input unfoldings / matrix. "
-        "Non-trivial = a rank was actually cut, or exact-rank recovery with a rank >= 2; distinct by SHA-1 of the case.")
+        "Non-trivial = a rank was actually cut, or exact-rank recovery with a rank >= 2; distinct by SHA-1 of the case."
+        " The rank cap reaches the routines as Python int / float or as np.int64 / np.int32 / np.intp / np.float64 / np.float32 / np.float16 / 0-d array of the same value.")
 TOLERANCES = ("floor_svd = 64 eps R d ||A||; skeleton: | ||A-UV|| - tail(q) | <= 64 eps (m+n) s0; matrix_svd (eigh route): size equality only "
               "for e >= 1e-6 s0, error <= e + 8 sqrt(eps min(m,n)) s0; 1e-6 two-sided slack at exact thresholds")
 ASSUMPTIONS = ["d >= 2 for svd (q >= 1 for svd_matrix)", "e > 0, r >= 1", "LAPACK SVD is the reference spectrum",
